@@ -28,6 +28,9 @@ def gen_case(rng):
   for r in regs:   # C11 only binds: a pass-through decorator under gin must not widen what is bindable
     if r['_kind'] == 'fn' and rng.random() < 0.3:
       r['_decorated'] = rng.choice([1, 1, 2, 3])
+    if r['deny'] and rng.random() < 0.3:
+      r['_deny_iter'] = True     # the list arrives as a one-shot iterator: refused, like any non-list
+      r['listTypesOk'] = False
     if r['_kind'] in ('init', 'new') and rng.random() < 0.4:
       r['_mixin'] = True   # a base class defines the *other* constructor with *args/**kwargs: it is not the one that counts
   scopes_early = [[], ['a']]
